@@ -1,6 +1,7 @@
 import CJ.Lemmas.DtlsListener
 import CJ.Lemmas.Heartbeat
 import CJ.Gen.C16Source
+import CJ.Lemmas.DtlsDerive
 /-!
 # C16 — DTLS sessions: same secret on both ends, right acceptor, faithful byte stream
 
@@ -471,6 +472,27 @@ theorem server_error_after_its_data (hb : Bytes) (cap : Nat) (pre post : List It
   rw [queued_append_clean hb cap pre _ hpre]
   simp [queued, hd, hdn, hd0]
 
+/-- **A heartbeat is a heartbeat whether or not its read also reports an error**: when the stream
+returns the payload together with an error (`n > 0` and `err` at once), the pass of `recvLoop` counts
+it and forwards nothing … -/
+theorem heartbeat_with_error_not_data (hb : Bytes) (cap : Nat) (hfit : hb.length ≤ cap) (e : Option Err) :
+    recvStep hb cap ⟨hb, e⟩ = .counted := by
+  simp [recvStep, hfit]
+
+/-- … so such a heartbeat, anywhere in the stream and with any error, leaves the reader's view exactly
+as if it had not been sent (`queued` is what the passes of the loop queue: `queued_eq_queuedBy`) -/
+theorem heartbeat_with_error_is_skipped (hb : Bytes) (cap : Nat) (hfit : hb.length ≤ cap)
+    (pre post : List Item) (e : Option Err) :
+    queued hb cap (pre ++ ⟨hb, e⟩ :: post) = queued hb cap (pre ++ post) := by
+  rw [queued_filter_hb hb cap hfit (pre ++ ⟨hb, e⟩ :: post), queued_filter_hb hb cap hfit (pre ++ post)]
+  simp [List.filter_append, List.filter_cons]
+
+theorem loop_passes_queue_the_model (hb : Bytes) (cap : Nat) (items : List Item) :
+    queuedBy hb cap items = queued hb cap items := (queued_eq_queuedBy hb cap items).symm
+
+/-- non-vacuity: data, a heartbeat whose read reports a timeout, more data — the reader sees the data -/
+example : queued [9] 4 [⟨[1], none⟩, ⟨[9], some .timeout⟩, ⟨[2], none⟩] = [⟨[1], none⟩, ⟨[2], none⟩] := by decide
+
 /-- **A writer that outpaces the network is held back**: whatever the interleaving of application
 writes, acknowledgements from the network and `Close`, the buffered amount never exceeds
 `writeMaxBufferedAmount + writeMaxBufferedAmount/2` (the one-slot wake-up channel can hold one stale
@@ -682,5 +704,68 @@ example : dlScan [] [] [("arm", "conn", "SetDeadline"), ("wrap", "w", "conn"), (
     ("retOk", "", "")] = true := by decide
 
 end source
+
+/-! ## credentials from the secret
+
+"Both ends derive identical certificates from a shared secret and a handshake completes only when
+both used the same secret … for all secrets."  The first half is that `derive` is a function.  The
+second needs distinct secrets to give distinct credentials; that rests on *where* the secret enters
+HKDF.  `CJ.DtlsDerive.HkdfLaws` asks collision-freedom of Extract in the input-key position only. -/
+section derivation
+open CJ.DtlsDerive CJ.Gen.C16Source
+
+/-- **Distinct secrets, distinct credentials** — for all secrets, whatever their length or relation
+(one a prefix of the other, one the digest of the other, …) -/
+theorem distinct_secrets_distinct_credentials (h : Hkdf) (L : HkdfLaws h) (s1 s2 : Bytes) (hne : s1 ≠ s2) :
+    (derive h s1).helloRandom ≠ (derive h s2).helloRandom ∧
+    (derive h s1).certStream ≠ (derive h s2).certStream :=
+  ⟨fun he => hne (read_inj h L labelRandom [] 32 (Nat.le_refl 32) s1 s2 he),
+   fun he => hne (read_inj h L labelCerts [] certStreamLen (by decide) s1 s2 he)⟩
+
+/-- both ends compute the same from the same secret -/
+theorem same_secret_same_credentials (h : Hkdf) (s1 s2 : Bytes) (he : s1 = s2) : derive h s1 = derive h s2 := by
+  rw [he]
+
+/-- **Counter-model: the secret in the salt position.**  With the first two byte arguments of
+`hkdf.New` exchanged the secret is an HMAC key, and HMAC pads its key with zero bytes: a secret and the
+same secret followed by zero bytes (up to the block size) give the same credentials … -/
+theorem hmac_key_padding_collides (hash : Bytes → Bytes) (h : Hkdf) (K : HmacKeyed hash h) (S : Bytes) (k : Nat)
+    (hk : S.length + k ≤ 64) :
+    deriveSwapped h (S ++ List.replicate k 0) = deriveSwapped h S := by
+  have e : ∀ ikm, h.extract (S ++ List.replicate k 0) ikm = h.extract S ikm := fun ikm => by
+    rw [K.extract_pads_salt (S ++ List.replicate k 0) ikm, padKey_zero_ext hash S k hk, ← K.extract_pads_salt S ikm]
+  simp [deriveSwapped, Hkdf.read, e]
+
+/-- … and a secret longer than a block and its digest do -/
+theorem hmac_long_key_collides (hash : Bytes → Bytes) (h : Hkdf) (K : HmacKeyed hash h) (S : Bytes)
+    (hS : 64 < S.length) (hh : (hash S).length ≤ 64) :
+    deriveSwapped h S = deriveSwapped h (hash S) := by
+  have e : ∀ ikm, h.extract S ikm = h.extract (hash S) ikm := fun ikm => by
+    rw [K.extract_pads_salt S ikm, padKey_long hash S hS hh, ← K.extract_pads_salt (hash S) ikm]
+  simp [deriveSwapped, Hkdf.read, e]
+
+/-- so with the arguments exchanged two *distinct* secrets share their credentials, for every HKDF
+built on HMAC — while `distinct_secrets_distinct_credentials` holds for the very same HKDF
+(`toy_laws`, `toy_hmacKeyed`: the two sets of hypotheses are consistent) -/
+theorem swapped_derivation_not_injective (hash : Bytes → Bytes) (h : Hkdf) (K : HmacKeyed hash h) :
+    ∃ s1 s2 : Bytes, s1 ≠ s2 ∧ deriveSwapped h s1 = deriveSwapped h s2 :=
+  ⟨[0], [], by decide, by simpa using hmac_key_padding_collides hash h K [] 1 (by decide)⟩
+
+theorem laws_and_key_padding_consistent : ∃ hash h, HkdfLaws h ∧ HmacKeyed hash h :=
+  ⟨toyHash, toy, toy_laws, toy_hmacKeyed⟩
+
+/-- **The secret is the input key of HKDF** at every call site of the package (regenerated from the
+source): the parameter `seed` is the second argument of `hkdf.New`, the salt is a constant label
+(different for the two derivations), there is no info and no other use of the package … -/
+theorem seed_is_hkdf_input_key :
+    hkdfCalls = [("certsFromSeed", "param:seed", "label:certsFromSeed", "nil"),
+                 ("clientHelloRandomFromSeed", "param:seed", "label:clientHelloRandomFromSeed", "nil")] ∧
+    hkdfOtherUses = 0 := by decide
+
+/-- … and what reaches `seed` is the configured secret itself, on every path -/
+theorem derivations_take_the_configured_secret :
+    seedCallers ≠ [] ∧ ∀ c ∈ seedCallers, c.2.2 = "config.PSK" := by decide
+
+end derivation
 
 end CJ.Props.C16
